@@ -34,6 +34,17 @@ Theorem label_name_rewriting_is_safe : forall short, qsafe (ml_name short) = tru
 Proof. exact ml_name_safe. Qed.
 Print Assumptions label_name_rewriting_is_safe.
 
+(* abbreviating a name is safe BEFORE escaping (whatever is kept), never after: a cut of an
+   escaped text may fall between a backslash and the quote it escapes *)
+Theorem abbreviate_then_escape_is_safe : forall s n m mid,
+  qsafe (escape_for_dot (take n s ++ mid ++ drop m s)) = true.
+Proof. intros. apply escape_safe. Qed.
+Print Assumptions abbreviate_then_escape_is_safe.
+Theorem escape_then_cut_refuted :
+  exists s n, qsafe (escape_for_dot s) = true /\ qsafe (drop n (escape_for_dot s)) = false.
+Proof. exists ("a" ++ s_quote ++ "b"), 2%nat. vm_compute. split; reflexivity. Qed.
+Print Assumptions escape_then_cut_refuted.
+
 (* ---------------- whole documents ---------------- *)
 (* for ALL graphs, titles, legends, tags, names, files, units: with the caller's own attribute
    values and the percentage oracle well-formed, the text ComposeDot writes is a syntactically
@@ -108,6 +119,12 @@ Theorem callgrind_address_decodes : forall p c,
   0 <= p < two64 -> 0 <= c < two64 -> dpos p (cg_addr (Some p) c) = c.
 Proof. exact cg_addr_decodes. Qed.
 Print Assumptions callgrind_address_decodes.
+
+(* "*" (same subposition) is written only when the address IS that of the previous line -- in
+   particular never for a node without an address (0) after a node that has one *)
+Theorem callgrind_same_only_when_equal : forall p c, cg_addr p c = PSame -> p = Some c.
+Proof. exact cg_addr_same. Qed.
+Print Assumptions callgrind_same_only_when_equal.
 
 (* name compression: the reader's table follows the writer's; a name written a second time is a
    bare reference to the id it was defined with *)
